@@ -185,6 +185,12 @@ var nested = { a: { b: { c: [1, 2, { d: 3 }] } } };
 var arr = [1, , 3]; arr.extra = "x";
 var cyc = { name: "cyc" }; cyc.self = cyc; cyc.list = [cyc];
 var removable = 1;
+var argParam = (function(arguments){ return function(){ return typeof arguments + ":" + arguments } })(5);
+$probes.push(argParam);
+function calleeC(){ return [calleeC.caller === outerC, typeof calleeC.caller, calleeC.arguments === null || typeof calleeC.arguments].join() }
+function outerC(){ return calleeC() }
+$probes.push(outerC); $probes.push(function(){ return calleeC.caller === null });
+$probes.push(function(){ return [typeof eval, (0, eval)("1+1"), (function(){ var loc = 3; return eval("loc") })()].join() });
 Array.prototype.extra = function(){ return "extra" };
 delete String.prototype.trim;
 Object.keys = function(o){ return ["patched"] };
@@ -201,6 +207,7 @@ var mutations = []string{
 	"delete removable;", "G2 = 5;", "var declaredLater = {k: 1};", "state = 99;",
 	"Array.prototype.extra = 1;", "delete Array.prototype.extra;", "Array.prototype.second = function(){};", "String.prototype.trim = function(){ return 't' };", "Object.keys = 3;", "Math.custom = 43;", "delete Math.custom;", "Object.prototype.polluted = 1;",
 	"Object.defineProperty(Object.prototype, 'acc2', {get: function(){ return 1 }, configurable: true});", "Function.prototype.fp = 1;", "JSON.extra = [1];", "Error.prototype.name = 'Renamed';",
+	"delete eval;", "eval = function(){ return 'fake' };", "var keepEval = eval; delete eval; log(keepEval('2+2'));", "Function.prototype.call = function(){ return 'patched' };", "delete Function.prototype.bind;",
 	"$probes.push(function(){ return 123 });", "log('mutated', state);", "counter = null;", "acc = {replaced: true};",
 }
 
